@@ -91,9 +91,9 @@ def c29_session(rep, seed, sched_seed, rounds, distinct):
             enc = ",".join((f"x{e['u']}" if e["k"] == "x" else f"e{e['u']}:{e['t']}") for e in allev) or "-"
             disk = ",".join(f"{i}={900 + i}" for i in range(NDISK))
             us = ",".join(map(str, range(NURIS)))
-            reqs = [f"schedreload.final {disk} {us} {enc}"]
+            reqs = [f"schedreload.final {disk} {us} {enc} all"]
             if len(allev) <= 3:
-                reqs.append(f"schedreload.explore real {disk} {us} {enc} 1 3000000")
+                reqs.append(f"schedreload.explore real {disk} {us} {enc} all all 3000000")
             outs = run_driver(reqs)
             model = {}
             if outs[0].startswith("ok "):
@@ -137,15 +137,143 @@ def c29_session(rep, seed, sched_seed, rounds, distinct):
     shutil.rmtree(ws, ignore_errors=True)
 
 
+def write_config(ws, k, ignore_dirs):
+    with open(os.path.join(ws, ".emmyrc.json"), "w") as f:
+        json.dump({"diagnostics": {"diagnosticInterval": 200 + k}, "workspace": {"ignoreDir": sorted(ignore_dirs)}}, f)
+
+
+def wait_reload(srv, trace, t_req, seen0, extra=1.2):
+    """wait until the debounced reload has started (H4 trace) and finished (reload_lock released), then a barrier"""
+    deadline = t_req + RELOAD_DELAY + 6.0
+    while time.time() < deadline and count_reload_acq(trace) == seen0:
+        time.sleep(0.01)
+    while time.time() < deadline:
+        try:
+            data = open(trace, "rb").read()
+        except OSError:
+            data = b""
+        if data.count(b"\trel\treload_lock\t") >= data.count(b"\tacq\treload_lock\t") > seen0:
+            break
+        time.sleep(0.02)
+    srv.request("workspace/symbol", {"query": "zz_probe"}, 60.0)
+    srv.settle(0.4, 20.0)
+
+
+def c29_membership_session(rep, seed, sched_seed, rounds, distinct):
+    """workspace-membership changes: documents opened/edited while their directory is in `workspace.ignoreDir`
+    (on disk and editor-only), then the config is rewritten so that the directory belongs to the workspace and the
+    debounced reload runs (with further edits racing it); and the reverse (included → excluded → included again).
+    Oracle: after settling, every OPEN document that is a workspace file NOW is analysed with the editor's latest
+    text; closed workspace files with their disk text."""
+    rng = random.Random(seed * 7000003 + (sched_seed or 0))
+    files = {f"fill/m{i}.lua": f"local M{i} = {{}}\nreturn M{i}\n" for i in range(40)}
+    for r in range(rounds):
+        for d in ("ex", "inc"):
+            files[f"r{r}_{d}/f0.lua"] = disk_text(0)
+            files[f"r{r}_{d}/f1.lua"] = disk_text(1)
+    ws = make_workspace(files)
+    ignored = {f"r{r}_ex" for r in range(rounds)}
+    write_config(ws, 0, ignored)
+    trace = os.path.join(ws, ".verif-trace.tsv")
+    srv = Server(ws, sched_seed=sched_seed, sched_max_ms=4, trace=trace)
+    desc0 = {"kind": "session", "prop": "C29", "session": "membership", "seed": seed, "sched_seed": sched_seed, "rounds": rounds}
+    counter = [0]
+    cfgk = [0]
+    try:
+        if srv.initialize() is None or not srv.wait_ready(120.0):
+            rep.mismatch({"what": "server did not initialise", "input": desc0})
+            return
+        srv.settle(0.6, 20.0)
+        for r in range(rounds):
+            kind = "bring-in" if r % 2 == 0 else "out-and-back"
+            d = "ex" if kind == "bring-in" else "inc"
+            # uris 0,1 on disk, 2,3 editor-only, all in the directory whose membership changes
+            uris = [path_uri(os.path.join(ws, f"r{r}_{d}", f"f{i}.lua")) for i in range(4)]
+            evs = []
+
+            def send(k, u):
+                if k == "x":
+                    e = {"k": "x", "u": u}
+                else:
+                    counter[0] += 1
+                    e = {"k": k, "u": u, "t": counter[0], "text": text_of(counter[0])}
+                evs.append(e)
+                srv._send(notif_msg(e, uris, len(evs)))
+            opened = set()
+            for u in rng.sample(range(4), rng.randrange(2, 5)):
+                send("o", u); opened.add(u)
+                for _ in range(rng.randrange(0, 3)):
+                    send("c", u)
+            phases = [set(ignored) - {f"r{r}_ex"}] if kind == "bring-in" else [set(ignored) | {f"r{r}_inc"}, set(ignored)]
+            judged = True
+            for pi, ign in enumerate(phases):
+                cfgk[0] += 1
+                seen0 = count_reload_acq(trace)
+                write_config(ws, cfgk[0], ign)
+                srv.notify("workspace/didChangeWatchedFiles", {"changes": [{"uri": path_uri(os.path.join(ws, ".emmyrc.json")), "type": 2}]})
+                t_req = time.time()
+                # edits racing the reload: some before it starts, some right after it took reload_lock
+                for _ in range(rng.randrange(0, 3)):
+                    u = rng.randrange(4)
+                    send("c" if u in opened else "o", u); opened.add(u)
+                if rng.random() < 0.7:
+                    deadline = t_req + RELOAD_DELAY + 2.0
+                    while time.time() < deadline and count_reload_acq(trace) == seen0:
+                        time.sleep(0.002)
+                    for _ in range(rng.randrange(1, 4)):
+                        u = rng.randrange(4)
+                        if u in opened and rng.random() < 0.25:
+                            send("x", u); opened.discard(u)
+                        else:
+                            send("c" if u in opened else "o", u); opened.add(u)
+                        time.sleep(rng.choice([0, 0.002, 0.02]))
+                wait_reload(srv, trace, t_req, seen0)
+                ignored = ign
+                member_now = f"r{r}_{d}" not in ign
+                obs = {u: observe_marker(srv, uris[u], 60.0) for u in range(4)}
+                exp = expected_last_writer(evs, 2, 4)
+                rep.d["evaluations"] += 1
+                shape = kind + ":" + ",".join(f"{e['k']}{e['u']}" for e in evs) + f"|phase{pi}"
+                distinct.add(shape)
+                desc = dict(desc0, round=r, membership=kind, phase=pi, now_workspace=member_now,
+                            events=[{k: v for k, v in e.items() if k != "text"} for e in evs])
+                rep.count("membership_" + kind + ("_in" if member_now else "_out"))
+                enc = ",".join((f"x{e['u']}" if e["k"] == "x" else f"e{e['u']}:{e['t']}") for e in evs) or "-"
+                out = run_driver([f"schedreload.final 0=900,1=901 0,1,2,3 {enc} {'all' if member_now else '0.1.2.3'}"])[0]
+                model = {}
+                if out.startswith("ok "):
+                    for u, pair in enumerate(out[3:].split(",")):
+                        an = pair.split("/")[1]
+                        model[u] = "*" if an == "*" else None if an == "none" else (("d", int(an) - 900) if int(an) >= 900 else ("v", int(an)))
+                for u in range(4):
+                    if not member_now:
+                        continue   # nothing is claimed about documents outside the workspace
+                    if model and model[u] != "*" and obs[u] != model[u]:
+                        rep.mismatch({"what": f"uri {u}: observed {obs[u]}, the model's quiescent state has {model[u]}", "input": desc, "model": out})
+                    if obs[u] != exp[u]:
+                        cls = "excluded-document-lost-editor-text" if exp[u] and exp[u][0] == "v" else "closed-file-not-disk"
+                        rep.oracle_failure({"class": cls, "what": f"{kind} phase {pi}: uri {u} is a workspace file now; the analysis has {obs[u]}, "
+                                            f"the editor's last notification gives {exp[u]} (events {shape})", "input": desc})
+                rep.sample({"membership": kind, "phase": pi, "now_workspace": member_now, "events": shape,
+                            "observed": {str(k): str(v) for k, v in obs.items()}, "model": out})
+    finally:
+        srv.close()
+        shutil.rmtree(ws, ignore_errors=True)
+
+
 def model_search(rep, thorough):
     alpha = ["e0:1", "e0:2", "x0", "e1:3", "x1"]
     lists = []
     for L in range(1, (3 if thorough else 2) + 1):
         for c in itertools.product(alpha, repeat=L):
             lists.append(",".join(c))
-    reqs = [f"schedreload.explore real 0=900 0,1 {l} {k} 6000000" for l in lists for k in ((1, 2) if thorough else (1,))]
+    reqs = [f"schedreload.explore real 0=900 0,1 {l} all {k} 6000000" for l in lists for k in (("all", "all,all") if thorough else ("all",))]
+    # membership changes: uri 0 (on disk) / 1 (editor-only) excluded at first and brought in, thrown out, out and back
+    for l in lists[::(1 if thorough else 2)]:
+        reqs.append(f"schedreload.explore real 0=900 0,1 {l} 0.1 all 6000000")
+        reqs.append(f"schedreload.explore real 0=900 0,1 {l} all 0.1,all 12000000")
     if thorough:  # the instance named in the design: 1 reload, 2 edits, 1 close
-        reqs += [f"schedreload.explore real 0=900 0,1 {l} 1 30000000" for l in ("e0:1,e1:2,x0", "e1:1,e1:2,x1", "e0:1,x0,e0:2")]
+        reqs += [f"schedreload.explore real 0=900 0,1 {l} all all 30000000" for l in ("e0:1,e1:2,x0", "e1:1,e1:2,x1", "e0:1,x0,e0:2")]
     outs = run_driver(reqs)
     total = 0
     for q, o in zip(reqs, outs):
@@ -168,7 +296,9 @@ def run(a, rep):
     rep.d["rule"] = ("a case = one reload round on the real server (config file rewritten → debounced apply_workspace_reload over "
                      f"{NFILL}+ files) with 3–12 didOpen/didChange/didClose on 4 documents (2 on disk) sent around the start of the reload; "
                      "analysed text of every document observed afterwards; or one (notification list, number of reloads) instance whose "
-                     "schedules are all explored in the model. distinct non-trivial = distinct event shapes + explored instances")
+                     "schedules are all explored in the model; membership sessions: documents (on disk and editor-only) opened/edited in a "
+                     "directory that is in workspace.ignoreDir, config rewritten so that it joins the workspace (and the reverse: out and "
+                     "back) with edits racing the reload. distinct non-trivial = distinct event shapes + explored instances")
     distinct = set()
     if a["replay"]:
         inp = (json.load(open(a["replay"])).get("input") or {})
@@ -178,6 +308,8 @@ def run(a, rep):
             if o.startswith("ok counter"):
                 rep.oracle_failure({"class": "model-counter-schedule", "what": "replay: " + o, "input": inp})
             rep.d["notes"].append("replay: " + o)
+        elif inp.get("session") == "membership":
+            c29_membership_session(rep, inp.get("seed", 1), inp.get("sched_seed"), inp.get("rounds", 2), distinct)
         else:
             c29_session(rep, inp.get("seed", 1), inp.get("sched_seed"), inp.get("rounds", 3), distinct)
         return
@@ -185,6 +317,9 @@ def run(a, rep):
     for ss, n in sessions:
         c29_session(rep, a["seed"], ss, n, distinct)
         rep.count("sessions")
+    for ss, n in ([(a["seed"] * 10 + 3, 2)] if not thorough else [(None, 4), (a["seed"] * 10 + 4, 4), (a["seed"] * 10 + 5, 4)]):
+        c29_membership_session(rep, a["seed"], ss, n, distinct)
+        rep.count("sessions_membership")
     ni = model_search(rep, thorough)
     rep.d["distinct_nontrivial"] = len(distinct) + ni
     rep.d["notes"].append("reloads are triggered through the config-file path (2 s debounce); whether a round really interleaved "
